@@ -260,23 +260,58 @@ def r4_flags(ctx, f, rep, eff):
               or all(x.startswith('member::Members::apply') for x in w), 'C08-R4', 'member::Members',
               'num_active is written only by apply / apply_existing_if', construct='num_active-writers',
               facts={'writers': sorted(w)})
-    # remove_if_down predicate
-    for c in f.closures_of('member::Members::remove_if_down'):
-        ps = ctx.paths(f, c, 'none')
-        if any(cc['decl'] in ('core::cmp::PartialEq::eq',) or True for p in ps for cc in p.calls()) and c.argc == 2 and \
-                any(p.ret[0] != 'call' for p in ps) and any(x for p in ps for x in p.conds()):
-            # predicate closure: returns true only on id == given && state == Down
-            trues = [p for p in ps if not (p.ret[0] == 'const' and p.ret[2] == 0)]
-            good = True
-            for p in trues:
-                # reaching a non-false result requires id equality true
-                ideq = [x for x in p.conds() if q.eq_sides(x['expr'])]
-                good = good and bool(ideq) and all(q.cond_truth(x) == q.eq_sides(x['expr'])[0] for x in ideq)
-                r = p.ret
-                good = good and (q.eq_sides(r) is not None and any(q.is_variant(s_, 'State', 'Down') for s_ in q.eq_sides(r)[1:])
-                                 and q.eq_sides(r)[0])
-            rep.check(good and bool(trues), 'C08-R4', c.nname, 'removal predicate is `id == given && state == Down`',
-                      site=c.raw['span'], construct='remove-predicate')
+    check_remove_predicate(ctx, f, rep, 'C08-R4')
+
+
+def check_remove_predicate(ctx, f, rep, rule):
+    """The position() predicate of Members::remove_if_down is `member.id == given && member.state == Down`."""
+    rb = f.fn('member::Members::remove_if_down')
+    pred = None
+    for p in ctx.paths(f, rb, 'none'):
+        for e in p.calls():
+            if e['res'].endswith('Iterator>::position') or e['decl'].endswith('Iterator::position'):
+                clo = e['args'][1]
+                if clo[0] == 'agg' and clo[1] == 'closure':
+                    pred = f.fn(clo[2])
+    if pred is None:
+        rep.anchor_missing(rule, 'position() predicate of remove_if_down')
+        return
+    ps = ctx.paths(f, pred, 'small')
+    good = bool(ps)
+    saw_true = False
+    for p in ps:
+        # collect what the path establishes
+        id_eq = None
+        down = None
+        for c in p.conds():
+            es = q.eq_sides(c['expr'])
+            if es:
+                is_eq, a, b = es
+                sides = (a, b)
+                if any(x[0] == 'load' and q.field_path(x[1])[1][-1:] == ['id'] for x in sides):
+                    id_eq = (q.cond_truth(c) == is_eq)
+                if any(q.is_variant(x, 'State', 'Down') for x in sides):
+                    down = (q.cond_truth(c) == is_eq)
+        r = p.ret
+        if r[0] == 'const':
+            res_true = bool(r[2])
+            if res_true:
+                good = good and id_eq is True and down is True
+                saw_true = True
+        else:
+            es = q.eq_sides(r)
+            # result is itself the remaining conjunct
+            if es and es[0] and any(q.is_variant(x, 'State', 'Down') for x in es[1:]) and \
+                    any(x[0] == 'load' and q.field_path(x[1])[1][-1:] == ['state'] for x in es[1:]):
+                good = good and id_eq is True
+                saw_true = True
+            elif es and es[0] and any(x[0] == 'load' and q.field_path(x[1])[1][-1:] == ['id'] for x in es[1:]):
+                good = good and down is True
+                saw_true = True
+            else:
+                good = False
+    rep.check(good and saw_true, rule, pred.nname, 'removal predicate is `id == given && state == Down`',
+              site=pred.raw['span'], construct='remove-predicate')
 
 
 def single_path_fn(ctx, f, rep, fn, state, notif, rule='C08-R5'):
